@@ -6,7 +6,8 @@ from mc.engine import Viol
 
 PROP = "C18"
 DIR = None
-T = {"a.txt": b"content of a", "d": DIR, "d/b.txt": b"content of b", "e.dat": b""}
+T = {"a.txt": b"content of a", "d": DIR, "d/b.txt": b"content of b", "e.dat": b"",
+     "man\u0303ana \u212b.mov": b"a name that is not in Unicode NFC form"}
 ALT = {"a.txt": b"a ALTERED", "d/b.txt": b"b ALTERED"}
 
 
